@@ -164,6 +164,13 @@ def run(ctx):
                                     for d2 in b.defs().get(l_, []):
                                         if d2[0] == "assign" and d2[3]["rv"]["k"] == "agg" and d2[3]["rv"].get("ak") == "adt" and "Session" in (d2[3]["rv"].get("def") or "") and len(d2[3]["rv"]["ops"]) >= 3:
                                             ctor_args = ctor_args or [op_place(o) for o in d2[3]["rv"]["ops"]]
+                                if not ctor_args:
+                                    # the association keeps its reply session as one value and sends a copy of it
+                                    src_fields = _self_fields_read(b, q[0]) or [f_ for l2 in locs_ for f_ in _self_fields_read(b, l2)]
+                                    copied = [cc for (_, cc, _) in calls_ if cc.name in ("Clone::clone",) and "Session" in (cc.self_s or "")]
+                                    if src_fields and all(cc.name in ("Clone::clone", "Deref::deref", "Borrow::borrow") for (_, cc, _) in calls_):
+                                        ok_sess = True
+                                        why_sess = f"the reply session is a copy of the association's own `{src_fields[0]}`" + (" (clone)" if copied else "")
                                 if ctor_args:
                                     ok_sess = all(a is not None and (_self_fields_read(b, a[0]) or any(_self_fields_read(b, l2) for l2 in b.slice_back([a[0]])[0])) for a in ctor_args)
                                     why_sess = f"session built from {len(ctor_args)} part(s), all from the association's state: {ok_sess}"
@@ -181,6 +188,35 @@ def run(ctx):
                             if g.kind == "bool" and b.edge_dominates(g.block, g.bool_target(True), blk):
                                 ok = True
                     ctx.ob("U3", b.defp, "user-attribution-behind-filter", loc(t["sp"]), ok, "the association's user is only updated from a packet that passed the replay filter" if ok else "the association's user can be set from a packet that did not pass the replay filter")
+        # ... and it IS updated from every forwarded datagram: the association is keyed by the client's session id alone, and the part of a
+        # 2022 datagram that carries that id is readable with the server key every registered user holds - so which user a datagram
+        # authenticated as is known per datagram only. An association that fixes its user once (at creation) answers a datagram that
+        # authenticated as user B under user A's key.
+        root_ = prog.body(b.root)
+        sty = root_.impl_self_def if root_ is not None else None
+        ufields = [fn for it in prog.items if it["k"] == "struct" and sty and it["path"] == sty for (fn, fty) in it["fields"] if "ServerUser" in fty] or ["user"]
+        writes = []
+        for (blk, c, t) in b.calls():
+            if c.name in ("Clone::clone_from", "Option::replace", "Option::insert", "core::mem::replace"):
+                p = op_place(t["args"][0]) if t["args"] else None
+                if p is not None and any(_derives_from_self_field(b, p[0], f) for f in ufields):
+                    writes.append(blk)
+        for blk in b.rpo():
+            for s_ in b.stmts(blk):
+                if s_["k"] == "assign" and any(e[0] == "deref" for e in s_["p"][1]) and any(e[0] == "field" and len(e) > 2 and e[2] in ufields for e in s_["p"][1]):
+                    writes.append(blk)
+        fwd = [blk for (blk, c, t) in b.calls() if c.name == "UdpSocket::send_to" and
+               any(g.kind == "bool" and b.edge_dominates(g.block, g.bool_target(True), blk) for (_, _, ft) in filt for g in gates_of_value(b, ft["dest"][0]))]
+        multi_user = any("ServerUser" in fty for it in prog.items if it["k"] == "struct" and sty and it["path"] == sty for (fn, fty) in it["fields"])
+        if multi_user:
+            for fblk in fwd:
+                ok = any(b.dominates(w, fblk) for w in writes)
+                ctx.ob("U3", b.defp, "reply-user-follows-the-forwarded-datagram", loc(b.term(fblk)["sp"]), ok,
+                       "every forwarded datagram first sets the association's user to the user it authenticated as" if ok else
+                       "a client datagram is forwarded without the association's user being set from the user this datagram authenticated as: the user is fixed when the "
+                       "association is created, while any registered user can send a datagram naming this session id (the session-id header is under the shared server key) - "
+                       "the answer to a datagram that authenticated as one user is then sealed and attributed under another user's key")
+            ctx.floor("U3", "forwarding sends of client datagrams in the association task", 1, len(fwd))
         # which field of the association is the reply address? the one the third slot of the reply tuple is read from (by role, not by name)
         addr_fields = set()
         for (blk, c, t) in b.calls():
